@@ -23,6 +23,16 @@ func (e *Exec) validRune(r *term.T) *term.T {
 	return c.Ite(bad, c.BVConst(32, 0xFFFD), r)
 }
 
+// allASCII: every rune is known (by range) to be below 0x80.
+func (e *Exec) allASCII(s *Str) bool {
+	for _, r := range s.R {
+		if _, hi := r.Range(); hi >= 0x80 {
+			return false
+		}
+	}
+	return true
+}
+
 // strBytes returns the byte representation (forking on UTF-8 length classes if needed).
 func (e *Exec) strBytes(s *Str) []*term.T {
 	if s.Opaque {
